@@ -33,7 +33,7 @@ Map sentence → theorem:
      `context_frame`, `compute_context_error`;
  (5) `iterate_bins_once`, `iterate_each_cell_once`, `iterate_all_cells`, `cell_edges_own`, `iterate_cell_context`,
      `iterate_bins_count`, `iterate_passes`, `iterate_passes_unselected`;
- (6) `map_bins_shape`, `map_bins_count_le`, `map_bins_passes`;
+ (6) `map_bins_shape`, `map_bins_cells_independent`, `map_bins_count_le`, `map_bins_start_error`, `map_bins_passes`;
  construction: `new_valid`, `new_rejects_edges`, `new_rejects_seq`, `new_rejects_argvar`;
  `histogram(edges, bins)`: `mkHistogram_ok`, and the quirk `mkHistogram_nested1`. -/
 
@@ -837,39 +837,70 @@ theorem iterate_passes_unselected (sel : D → Bool) (createEdgesStr : List (α 
 
 /-! ### `MapBins` -/
 
+theorem startCell_ok_iff (seqStart : Value D → Except ε (Trace (Value D) ε)) (cell : Value D)
+    (t' : Trace (Value D) (Exc ε)) :
+    startCell seqStart cell = .ok t' ↔ ∃ t, seqStart cell = .ok t ∧ t' = t.liftInner := by
+  unfold startCell
+  cases seqStart cell with
+  | error e => simp
+  | ok t => simp [eq_comm]
+
+theorem startCell_error_iff (seqStart : Value D → Except ε (Trace (Value D) ε)) (cell : Value D) (e : Exc ε) :
+    startCell seqStart cell = .error e ↔ ∃ e', seqStart cell = .error e' ∧ e = .inner e' := by
+  unfold startCell
+  cases seqStart cell with
+  | error e0 => simp [eq_comm]
+  | ok t => simp
+
+/-- what `mapBinsOne` does with a selected histogram with valid edges and regular bins: the generators of
+all cells are created first (`mdMapE startCell`), then iterated in lockstep -/
+theorem mapBinsOne_selected (seqStart : Value D → Except ε (Trace (Value D) ε)) (sel : Value D → Bool)
+    (drop : Bool) {h : Hist α (Value D)} (he : ValidEdges h.edges)
+    (hs : NArr.HasShape (dimsOf h.edges.axes) h.bins) (ctx : Option Slots)
+    (hsel : ∀ b00, (exampleBin h : Except (Exc ε) (Value D)) = .ok b00 → sel b00 = true) :
+    mapBinsOne names seqStart sel drop (.hist h ctx) =
+      (match mdMapE (startCell seqStart) .lenaTypeError .unmodelled h.bins with
+       | .error e => ⟨[], some e⟩
+       | .ok traces =>
+         mdSeqMapRun (mapBinsResult names drop h.edges (ctx.getD (emptyD names.length))) traces) := by
+  obtain ⟨b00, hb, _⟩ := exampleBin_ok (ε := ε) he hs
+  simp only [mapBinsOne, hb, hsel b00 hb, Bool.not_true, Bool.false_eq_true, if_false]
+  rfl
+
 /-- **Sentence (6): `MapBins` returns histograms of identical shape and edges whose every cell is the
 sequence applied to the corresponding cell.**  For a selected histogram with valid edges and regular bins,
 the `j`-th value yielded is a histogram with context, over the same edges, with bins of the same regular
-shape, and its cell `p` holds the `j`-th result of the sequence run on the cell `p` alone — its data part
-when `drop_bins_context` is set. -/
-theorem map_bins_shape (seqRun : Value D → Trace (Value D) ε) (sel : Value D → Bool) (drop : Bool)
+shape, and its cell `p` holds the `j`-th result of a fresh copy of the sequence run on the cell `p` alone —
+its data part when `drop_bins_context` is set. -/
+theorem map_bins_shape (seqStart : Value D → Except ε (Trace (Value D) ε)) (sel : Value D → Bool) (drop : Bool)
     {h : Hist α (Value D)} (he : ValidEdges h.edges) (hs : NArr.HasShape (dimsOf h.edges.axes) h.bins)
     (ctx : Option Slots)
     (hsel : ∀ b00, (exampleBin h : Except (Exc ε) (Value D)) = .ok b00 → sel b00 = true)
     (j : Nat) (fv : FVal α D)
-    (hj : (mapBinsOne names seqRun sel drop (.hist h ctx)).out[j]? = some fv) :
+    (hj : (mapBinsOne names seqStart sel drop (.hist h ctx)).out[j]? = some fv) :
     ∃ h' c', fv = .hist h' (some c') ∧ h'.edges = h.edges ∧ NArr.HasShape (dimsOf h.edges.axes) h'.bins ∧
       ∀ p cell, cellAt h.bins p = some cell →
-        ∃ r, (seqRun cell).out[j]? = some r ∧
+        ∃ t r, seqStart cell = .ok t ∧ t.out[j]? = some r ∧
           cellAt h'.bins p = some (if drop then dataOnly names r else r) := by
-  obtain ⟨b00, hb, _⟩ := exampleBin_ok (ε := ε) he hs
+  rw [mapBinsOne_selected names seqStart sel drop he hs ctx hsel] at hj
   cases hd : dimsOf h.edges.axes with
   | nil => exact absurd hd (dimsOf_ne_nil' he)
   | cons n ns =>
     have hs' := hs
     rw [hd] at hs'
-    simp only [mapBinsOne, hb, hsel b00 hb, Bool.not_true, Bool.false_eq_true, if_false,
-      mdMap_ok _ ns n h.bins hs'] at hj
-    have hst : NArr.HasShape (n :: ns) (NArr.map (fun cell => (seqRun cell).liftInner) h.bins) :=
-      hasShape_map _ _ _ hs'
+    cases hst0 : mdMapE (startCell seqStart) (Exc.lenaTypeError : Exc ε) .unmodelled h.bins with
+    | error e => simp [hst0] at hj
+    | ok traces =>
+    simp only [hst0] at hj
+    obtain ⟨hst, hcok⟩ := (mdMapE_char (startCell seqStart) _ _ (n :: ns) h.bins hs' (by simp)).1 traces hst0
     obtain ⟨result, hsh, hc, hm⟩ := mdSeqMapRun_out _ _ hst (by simp) j _ hj
     have hcells : ∀ p cell, cellAt h.bins p = some cell →
-        ∃ r, (seqRun cell).out[j]? = some r ∧ cellAt result p = some r := by
+        ∃ t r, seqStart cell = .ok t ∧ t.out[j]? = some r ∧ cellAt result p = some r := by
       intro p cell hp
-      have ht : cellAt (NArr.map (fun cell => (seqRun cell).liftInner) h.bins) p = some (seqRun cell).liftInner := by
-        simp [cellAt_map, hp]
-      obtain ⟨r, hr, hcr⟩ := hc p _ ht
-      exact ⟨r, hr, hcr⟩
+      obtain ⟨t', ht', hct⟩ := hcok p cell hp
+      obtain ⟨t, hst1, rfl⟩ := (startCell_ok_iff seqStart cell t').1 ht'
+      obtain ⟨r, hr, hcr⟩ := hc p _ hct
+      exact ⟨t, r, hst1, hr, hcr⟩
     unfold mapBinsResult at hm
     cases drop with
     | true =>
@@ -886,11 +917,11 @@ theorem map_bins_shape (seqRun : Value D → Trace (Value D) ε) (sel : Value D 
           simp only [hex] at hm
           have hshape : NArr.HasShape (n :: ns) (NArr.map (dataOnly names) result) := hasShape_map _ _ _ hsh
           have hcell' : ∀ p cell, cellAt h.bins p = some cell →
-              ∃ r, (seqRun cell).out[j]? = some r ∧
+              ∃ t r, seqStart cell = .ok t ∧ t.out[j]? = some r ∧
                 cellAt (NArr.map (dataOnly names) result) p = some (dataOnly names r) := by
             intro p cell hp
-            obtain ⟨r, hr, hcr⟩ := hcells p cell hp
-            exact ⟨r, hr, by simp [cellAt_map, hcr]⟩
+            obtain ⟨t, r, hst1, hr, hcr⟩ := hcells p cell hp
+            exact ⟨t, r, hst1, hr, by simp [cellAt_map, hcr]⟩
           split at hm
           · split at hm
             · simp at hm
@@ -918,35 +949,100 @@ theorem map_bins_shape (seqRun : Value D → Trace (Value D) ε) (sel : Value D 
           · simp only [Except.ok.injEq] at hm
             exact ⟨_, _, hm.symm, rfl, hsh, by simpa using hcells⟩
 
+/-- **Sentence (6): cell `p` of the result depends on cell `p` of the input only** — no state of the
+sequence leaks from one cell to another, whatever the sequence does internally (`seqStart` is *any*
+function of the cell: a fresh copy of a stateful sequence).  Take two histograms over valid edges of the
+same shape that agree in the cell `p` (all other cells, and the contexts, may differ): whenever both runs
+yield a `j`-th histogram, these agree in the cell `p`. -/
+theorem map_bins_cells_independent (seqStart : Value D → Except ε (Trace (Value D) ε)) (sel : Value D → Bool)
+    (drop : Bool) {h1 h2 : Hist α (Value D)} (he1 : ValidEdges h1.edges) (he2 : ValidEdges h2.edges)
+    (hs1 : NArr.HasShape (dimsOf h1.edges.axes) h1.bins) (hs2 : NArr.HasShape (dimsOf h2.edges.axes) h2.bins)
+    (ctx1 ctx2 : Option Slots)
+    (hsel1 : ∀ b00, (exampleBin h1 : Except (Exc ε) (Value D)) = .ok b00 → sel b00 = true)
+    (hsel2 : ∀ b00, (exampleBin h2 : Except (Exc ε) (Value D)) = .ok b00 → sel b00 = true)
+    (p : List Nat) (cell : Value D) (hp1 : cellAt h1.bins p = some cell) (hp2 : cellAt h2.bins p = some cell)
+    (j : Nat) (fv1 fv2 : FVal α D)
+    (hj1 : (mapBinsOne names seqStart sel drop (.hist h1 ctx1)).out[j]? = some fv1)
+    (hj2 : (mapBinsOne names seqStart sel drop (.hist h2 ctx2)).out[j]? = some fv2) :
+    ∃ h1' c1 h2' c2 r, fv1 = .hist h1' (some c1) ∧ fv2 = .hist h2' (some c2) ∧
+      cellAt h1'.bins p = some r ∧ cellAt h2'.bins p = some r := by
+  obtain ⟨h1', c1, hf1, _, _, hc1⟩ := map_bins_shape names seqStart sel drop he1 hs1 ctx1 hsel1 j fv1 hj1
+  obtain ⟨h2', c2, hf2, _, _, hc2⟩ := map_bins_shape names seqStart sel drop he2 hs2 ctx2 hsel2 j fv2 hj2
+  obtain ⟨t1, r1, hst1, hr1, hcell1⟩ := hc1 p cell hp1
+  obtain ⟨t2, r2, hst2, hr2, hcell2⟩ := hc2 p cell hp2
+  rw [hst1] at hst2
+  simp only [Except.ok.injEq] at hst2
+  subst hst2
+  rw [hr1] at hr2
+  simp only [Option.some.injEq] at hr2
+  subst hr2
+  exact ⟨h1', c1, h2', c2, _, hf1, hf2, hcell1, hcell2⟩
+
 /-- `MapBins` yields no more histograms than the sequence yields results on any cell (the minimum over the
 cells when it ends normally: `mdSeqMapRun_stop`) -/
-theorem map_bins_count_le (seqRun : Value D → Trace (Value D) ε) (sel : Value D → Bool) (drop : Bool)
+theorem map_bins_count_le (seqStart : Value D → Except ε (Trace (Value D) ε)) (sel : Value D → Bool) (drop : Bool)
     {h : Hist α (Value D)} (he : ValidEdges h.edges) (hs : NArr.HasShape (dimsOf h.edges.axes) h.bins)
     (ctx : Option Slots)
     (hsel : ∀ b00, (exampleBin h : Except (Exc ε) (Value D)) = .ok b00 → sel b00 = true)
-    (p : List Nat) (cell : Value D) (hp : cellAt h.bins p = some cell) :
-    (mapBinsOne names seqRun sel drop (.hist h ctx)).out.length ≤ (seqRun cell).out.length := by
-  obtain ⟨b00, hb, _⟩ := exampleBin_ok (ε := ε) he hs
+    (p : List Nat) (cell : Value D) (hp : cellAt h.bins p = some cell) (t : Trace (Value D) ε)
+    (ht : seqStart cell = .ok t) :
+    (mapBinsOne names seqStart sel drop (.hist h ctx)).out.length ≤ t.out.length := by
+  rw [mapBinsOne_selected names seqStart sel drop he hs ctx hsel]
   cases hd : dimsOf h.edges.axes with
   | nil => exact absurd hd (dimsOf_ne_nil' he)
   | cons n ns =>
     have hs' := hs
     rw [hd] at hs'
-    simp only [mapBinsOne, hb, hsel b00 hb, Bool.not_true, Bool.false_eq_true, if_false,
-      mdMap_ok _ ns n h.bins hs']
-    have hst : NArr.HasShape (n :: ns) (NArr.map (fun cell => (seqRun cell).liftInner) h.bins) :=
-      hasShape_map _ _ _ hs'
-    have ht : cellAt (NArr.map (fun cell => (seqRun cell).liftInner) h.bins) p = some (seqRun cell).liftInner := by
-      simp [cellAt_map, hp]
-    exact mdSeqMapRun_length_le _ _ hst (by simp) p _ ht
+    cases hst0 : mdMapE (startCell seqStart) (Exc.lenaTypeError : Exc ε) .unmodelled h.bins with
+    | error e => simp
+    | ok traces =>
+      simp only []
+      obtain ⟨hst, hcok⟩ := (mdMapE_char (startCell seqStart) _ _ (n :: ns) h.bins hs' (by simp)).1 traces hst0
+      obtain ⟨t', ht', hct⟩ := hcok p cell hp
+      obtain ⟨t0, hst1, rfl⟩ := (startCell_ok_iff seqStart cell t').1 ht'
+      rw [ht] at hst1
+      simp only [Except.ok.injEq] at hst1
+      subst hst1
+      exact mdSeqMapRun_length_le _ _ hst (by simp) p _ hct
+
+/-- **Exceptions at creation**: `Sequence.run` is evaluated immediately, so a cell on which the sequence
+raises when it is started (e.g. an accumulator inside it refuses the cell) makes `MapBins` raise that
+exception before anything is yielded; conversely, when `MapBins` raises before the first round's `next`,
+some cell's sequence raised it. -/
+theorem map_bins_start_error (seqStart : Value D → Except ε (Trace (Value D) ε)) (sel : Value D → Bool)
+    (drop : Bool) {h : Hist α (Value D)} (he : ValidEdges h.edges)
+    (hs : NArr.HasShape (dimsOf h.edges.axes) h.bins) (ctx : Option Slots)
+    (hsel : ∀ b00, (exampleBin h : Except (Exc ε) (Value D)) = .ok b00 → sel b00 = true) :
+    (∀ e, mdMapE (startCell seqStart) (Exc.lenaTypeError : Exc ε) .unmodelled h.bins = .error e →
+      mapBinsOne names seqStart sel drop (.hist h ctx) = ⟨[], some e⟩ ∧
+      ∃ p cell e', cellAt h.bins p = some cell ∧ seqStart cell = .error e' ∧ e = .inner e') ∧
+    ((∀ p cell, cellAt h.bins p = some cell → ∃ t, seqStart cell = .ok t) →
+      ∃ traces, mdMapE (startCell seqStart) (Exc.lenaTypeError : Exc ε) .unmodelled h.bins = .ok traces) := by
+  have hd := dimsOf_ne_nil' he
+  have hchar := mdMapE_char (startCell seqStart) (Exc.lenaTypeError : Exc ε) .unmodelled _ h.bins hs hd
+  refine ⟨?_, ?_⟩
+  · intro e hst0
+    refine ⟨by rw [mapBinsOne_selected names seqStart sel drop he hs ctx hsel, hst0], ?_⟩
+    obtain ⟨p, cell, hp, hf⟩ := hchar.2 e hst0
+    obtain ⟨e', he', hee⟩ := (startCell_error_iff seqStart cell e).1 hf
+    exact ⟨p, cell, e', hp, he', hee⟩
+  · intro hall
+    cases hst0 : mdMapE (startCell seqStart) (Exc.lenaTypeError : Exc ε) .unmodelled h.bins with
+    | ok traces => exact ⟨traces, rfl⟩
+    | error e =>
+      obtain ⟨p, cell, hp, hf⟩ := hchar.2 e hst0
+      obtain ⟨e', he', _⟩ := (startCell_error_iff seqStart cell e).1 hf
+      obtain ⟨t, ht⟩ := hall p cell hp
+      rw [ht] at he'
+      simp at he'
 
 /-- values that are not histograms, and histograms whose example bin is not selected, pass `MapBins`
 unchanged -/
-theorem map_bins_passes (seqRun : Value D → Trace (Value D) ε) (sel : Value D → Bool) (drop : Bool) :
-    (∀ v : Value D, mapBinsOne names seqRun sel drop (.plain v : FVal α D) = ⟨[.plain v], none⟩) ∧
+theorem map_bins_passes (seqStart : Value D → Except ε (Trace (Value D) ε)) (sel : Value D → Bool) (drop : Bool) :
+    (∀ v : Value D, mapBinsOne names seqStart sel drop (.plain v : FVal α D) = ⟨[.plain v], none⟩) ∧
     (∀ (h : Hist α (Value D)) (ctx : Option Slots) (b00 : Value D),
       (exampleBin h : Except (Exc ε) (Value D)) = .ok b00 → sel b00 = false →
-      mapBinsOne names seqRun sel drop (.hist h ctx) = ⟨[.hist h ctx], none⟩) := by
+      mapBinsOne names seqStart sel drop (.hist h ctx) = ⟨[.hist h ctx], none⟩) := by
   refine ⟨fun v => rfl, ?_⟩
   intro h ctx b00 hb hsel
   simp [mapBinsOne, hb, hsel]
@@ -1044,9 +1140,20 @@ example : NArr.HasShape (dimsOf exH.edges.axes) exH.bins := by simp [exH, dimsOf
 example : (iterateBinsOne ["bin", "bins"] (fun _ => true) (fun _ _ => (.ok (.str "s") : Except (Exc Unit) V))
     (encEdges V.int) (.hist exH none)).out.length = 2 := by decide
 example : kBin ["bin", "bins"] ≠ kBins ["bin", "bins"] := by decide
-example : ((mapBinsOne ["bin", "bins"] (fun c => (⟨[c, c], none⟩ : Trace (Value Int) Unit)) (fun _ => true) true
+example : ((mapBinsOne ["bin", "bins"] (fun c => (.ok ⟨[c, c], none⟩ : Except Unit (Trace (Value Int) Unit))) (fun _ => true) true
     (.hist exH none)).out.map (fun fv => match fv with | .hist h _ => some h.bins | .plain _ => none)) =
     [some (.node [.leaf (.bare 7), .leaf (.bare 8)]), some (.node [.leaf (.bare 7), .leaf (.bare 8)])] := by rfl
+
+-- `map_bins_cells_independent`, `map_bins_start_error`: a *stateful* sequence of the correspondence check
+-- (`Sequence(Sum-like accumulator, lambda s: 10 * s)`): every cell gets a fresh copy — 70 and 80, not 70 and 150
+def exHV : Hist Int (Value V) := ⟨.flat [0, 2, 4], .node [.leaf (.bare (.int 7)), .leaf (.bare (.int 8))]⟩
+example : ((mapBinsOne ["value"] (Conc.seqStart ["value"] [.acc 0, .scale 10]) (fun _ => true) true
+    (.hist exHV none)).out.map (fun fv => match fv with | .hist h _ => some h.bins | .plain _ => none)) =
+    [some (.node [.leaf (.bare (.int 70)), .leaf (.bare (.int 80))])] := by rfl
+-- an accumulator that refuses a cell (a string cannot be added) raises when the sequence is started
+example : mapBinsOne (α := Int) ["value"] (Conc.seqStart ["value"] [.acc 0]) (fun _ => true) true
+    (.hist ⟨.flat [0, 2, 4], .node [.leaf (.bare (.int 7)), .leaf (.bare (.str "s"))]⟩ none) =
+    ⟨[], some (.inner "Other:TypeError")⟩ := by rfl
 
 end Examples
 
